@@ -131,6 +131,10 @@ func (r *Run) Fail(key, desc string, rp func() Replay) {
 	path := ""
 	if len(r.violations) < r.maxReplays && rp != nil {
 		path = r.writeReplay(key, desc, rp())
+	} else {
+		// beyond the artefact cap (or no artefact builder): the coordinates alone are written, so that
+		// every VIOLATION line names a path that exists; the key re-creates the case in the enumeration
+		path = r.writeReplay(key, desc+"\n(full artefacts are written for the first "+fmt.Sprint(r.maxReplays)+" violations of a run; this one is identified by its enumeration key)", Replay{})
 	}
 	r.violations = append(r.violations, violation{key, desc, path})
 }
